@@ -14,6 +14,10 @@
 //! original ID x EDNS yes/no x UDP/TCP x 5 request kinds (existing name, missing name, opcode UPDATE,
 //! octet after the TSIG, QUERY without question) - pruned as coded.  The clock is read per request;
 //! all offsets keep >= 50 s distance from the edges of the fudge window.
+//! [C08] "octets remain after the last counted record": every request of the enumeration whose TSIG
+//! verifies (reference verdict Ok) is also sent with 2 octets (c0 0c), 3 octets (00 00 01) and a complete
+//! uncounted A record after the TSIG record: FORMERR without answer/authority data.  (Requests whose
+//! TSIG does not verify are sent with the one-octet tail only, as before: a TSIG error comes first.)
 #[path = "../wire_ref.rs"]
 mod wire_ref;
 #[path = "../srv_ref.rs"]
@@ -84,16 +88,17 @@ fn main() {
     enum Time { Off(i64), Abs(u64) }
     let times = [Time::Off(0), Time::Off(-100), Time::Off(100), Time::Off(-250), Time::Off(250), Time::Off(-400), Time::Off(400), Time::Off(-86400), Time::Off(86400),
         Time::Off(-65536), Time::Off(65536), Time::Off(-65636), Time::Off(65636), Time::Off(-65436), Time::Off(65436), Time::Off(131072), Time::Off(-196608 + 50), Time::Abs(0), Time::Abs((1 << 48) - 1)];
-    let kinds = ["a.ex. A", "n.ex. A (no such name)", "opcode UPDATE", "a.ex. A with an octet after the TSIG", "QUERY without question"];
+    let kinds = ["a.ex. A", "n.ex. A (no such name)", "opcode UPDATE", "a.ex. A with an octet after the TSIG", "QUERY without question",
+        "a.ex. A with the octets c0 0c after a TSIG that verifies", "a.ex. A with the octets 00 00 01 after a TSIG that verifies", "a.ex. A with a complete uncounted A record after a TSIG that verifies"];
+    let tails: [&[u8]; 8] = [&[], &[], &[], &[0], &[], &[0xc0, 0x0c], &[0, 0, 1], &[0, 0, 1, 0, 1, 0, 0, 0, 5, 0, 4, 10, 0, 0, 9]];
 
-    let mut cases = 0u64;
+    let (mut cases, mut tail_cases) = (0u64, 0u64);
     let mut buf = vec![0u8; 65535];
     for (ki, kind) in kinds.iter().enumerate() { for (cwhat, kname, aname, alg, secret) in &choices { for (ewhat, edit) in &edits { for time in times { for fudge in [300u16, 30, 65535] {
         for id_differs in [false, true] { for edns in [false, true] { for tcp in [false, true] {
             // pruning: the full product only for the first kind; other kinds with fudge 300 and 5 times
             if ki > 0 && (fudge != 300 || !matches!(time, Time::Off(0) | Time::Off(-100) | Time::Off(400) | Time::Off(65536) | Time::Abs(0))) { continue; }
             if ki > 0 && (id_differs != edns) { continue; }
-            cases += 1;
             let id = 0x1234u16;
             let orig_id = if id_differs { 0x4321 } else { id };
             let mut m = header(id, if ki == 2 { 5 << 3 } else { 1 }, 0, (ki != 4) as u16, 0, 0, edns as u16);
@@ -102,13 +107,20 @@ fn main() {
             let t0 = now();
             let ts = match time { Time::Off(o) => (t0 as i64 + o) as u64, Time::Abs(a) => a };
             let (mut req, _) = sign_request(&m, kname, aname, *alg, secret, ts, fudge, orig_id, edit.as_ref());
-            if ki == 3 { req.push(0); }
+            req.extend_from_slice(tails[ki]);
             let input = format!("{kind} | key {cwhat} | MAC {ewhat} | time signed {time:?} (now {t0}) fudge {fudge} | header ID {id:#06x} original ID {orig_id:#06x} | EDNS {edns} | {} | request {}", if tcp { "TCP" } else { "UDP" }, hex(&req));
             let info = ReceivedInfo::new("192.0.2.1".parse().unwrap(), if tcp { Transport::Tcp } else { Transport::Udp });
             let r = catch_unwind(AssertUnwindSafe(|| match server.handle_message(&req, info, &mut buf) { Response::Single(n) => Some(n), Response::None => None }));
             let n = match r { Ok(n) => n, Err(_) => fail("[C10] Server::handle_message panicked", &input, &"panic", &"a response") };
             let cx = Ctx { tcp, payload: 1232, keys: &keys, now: t0 };
             let e = expectation(&req, &cx);
+            if ki >= 5 {
+                // only the clear case: the TSIG verifies, so the octets after it are the first problem
+                if e.verdict != Some(TsigVerdict::Ok) { continue; }
+                if e.stage != Stage::Error(vec![FORMERR]) { fail("set-up: the reference does not expect FORMERR for octets after a verifying TSIG", &input, &e.stage, &"FORMERR"); }
+                tail_cases += 1;
+            }
+            cases += 1;
             let d = match check_response(&req, n.map(|n| &buf[..n]), &e, &cx) { Ok(d) => d, Err((what, got, want)) => fail(&what, &input, &got, &want) };
             if let (Some(d), Stage::Lookup) = (d, &e.stage) {
                 // authenticated and well formed: answered normally
@@ -118,6 +130,8 @@ fn main() {
             }
         }}}
     }}}}}
+    if tail_cases < 100 { fail("set-up: too few requests with octets after a verifying TSIG", &tail_cases, &"", &">= 100"); }
     done(cases, "8 key/algorithm choices x 16 MAC edits x 19 time offsets x 3 fudge values x original ID equal/different x EDNS yes/no x UDP/TCP for a query of an existing name; \
-for 4 more request kinds (missing name, opcode UPDATE, octet after the TSIG, QUERY without question) fudge 300, 5 time offsets, 2 of the 4 ID/EDNS combinations; HMAC-SHA1 and HMAC-SHA256")
+for 4 more request kinds (missing name, opcode UPDATE, octet after the TSIG, QUERY without question) fudge 300, 5 time offsets, 2 of the 4 ID/EDNS combinations; HMAC-SHA1 and HMAC-SHA256; \
+each of those requests whose TSIG verifies also with c0 0c / 00 00 01 / a complete uncounted A record after the TSIG record (FORMERR expected)")
 }
